@@ -441,7 +441,7 @@ def cases(tier, seed):
 
     opts = [{'tau': 1.0}, {'tau': 1.01}, {'tau': 3.0}, {'tau': 1e6}, {'tau0': 1.0}, {'tau0': 2.0}, {'tau0': 10.0},
             {'k0': 1}, {'k0': 2}, {'k0': 1, 'tau0': 1.0, 'tau': 1.0}, {'scale': 1e-8}, {'scale': 1e-4}, {'scale': 1e4},
-            {'scale': 1e8}, {'yscale': 1e-8}, {'yscale': 1e8}, {'order': 'F'}, {'order': 'V'}, {'vform': 'list'},
+            {'scale': 1e8}, {'scale': 1e-12}, {'scale': 1e12}, {'yscale': 1e-8}, {'yscale': 1e8}, {'order': 'F'}, {'order': 'V'}, {'vform': 'list'},
             {'func': 'hook'}, {'log': True}]
     if big:
         opts += [{'scale': 1e-30}, {'scale': 1e30}, {'scale': 1e8, 'yscale': 1e-8}, {'tau': 1.5, 'tau0': 1.5, 'k0': 3},
@@ -464,6 +464,15 @@ def cases(tier, seed):
                 yield 'C05.cross.reproduce', dict(n=n, rho=rho, r0=r0, dr_min=a, dr_max=b, nswp=nswp, tseed=sd(),
                                                   yseed=sd(), cache=bool(k % 2), vld=bool((k // 2) % 2) or 'vform' in o,
                                                   opt=o)
+    # target scale again: every shape, with and without cache
+    for n in (SHAPES if big else cov):
+        for sc in (1e-12, 1e-8, 1e8) + ((1e-4, 1e4, 1e12) if big else ()):
+            for cache in (False, True):
+                k += 1
+                rho = 1 + k % 3
+                r0, a, b, nswp = (_modes(rho) + [grow(rho, 1, 1, 3)])[k % 7 if rho > 1 else k % 5]
+                yield 'C05.cross.reproduce', dict(n=n, rho=rho, r0=r0, dr_min=a, dr_max=b, nswp=nswp, tseed=sd(),
+                                                  yseed=sd(), cache=cache, vld=bool((k // 2) % 2), opt={'scale': sc})
     # many modes / large modes; growth by 2..3 per half-sweep with room to spare (also on nearly square unfoldings,
     # where the limits are clipped); starts far above the target rank; ragged rank profiles of the start
     for n in wide + cov:
